@@ -1,4 +1,6 @@
 import Dashu.Proofs.Panic.Guards
+import Dashu.Proofs.Panic.GuardsMore
+import Dashu.Proofs.Panic.AllocGuards
 import Dashu.Proofs.Panic.Farey
 import Dashu.Proofs.Panic.LnLoop
 import Dashu.Proofs.Panic.Utf8
@@ -145,6 +147,146 @@ example : guardFLn ⟨2, -3, 0, 14, 'Z'⟩ = .error .logInvalid := by decide
 example : guardFLn1p ⟨10, -1, 0, 5, 'H'⟩ = .error .logInvalid := by decide
 example : guardFLn1p ⟨10, -5, -1, 5, 'H'⟩ = .ok () := by decide
 example : guardFEuclid 64 ⟨2, 0, 1, 0, 'Z'⟩ ⟨2, 3, 0, 0, 'Z'⟩ = .error .infinite := by decide
+
+-- ---- round 2: further families (Dashu.Model.Panic.GuardsMore).  `_partial`: the code checks less than the
+--      documentation promises (recorded findings); the hypothesis excludes exactly that region and the
+--      `_counterexample` shows it is needed.
+
+theorem fbig_finite_only_guard (W : Nat) (a : FArg) (k : Kind) (op : Op)
+    (hop : op ∈ [Op.fToInt, .fTrunc, .fFract, .fCeil, .fFloor, .fRound]) (hc : a.canonical) (hm : a.moderate) :
+    guardFFiniteOnly a = .error k ↔ documented W op [.flt a] = some k := guardFFiniteOnly_iff W a k op hop hc hm
+
+/- FULL: theorem fbig_mul_guard : guardFMul a b = .error k ↔ documented W .fMul [.flt a, .flt b] = some k
+   is FALSE (`fbig_mul_guard_counterexample`): `lhs.exponent + rhs.exponent` is unchecked (finding float_exponent_unchecked). -/
+theorem fbig_mul_guard_partial (W : Nat) (a b : FArg) (k : Kind) (hc : (a.canonical ∧ b.canonical ∧ sameKind a b))
+    (hexp : expApprox (a.exp + b.exp) = .returns) :
+    guardFMul a b = .error k ↔ documented W .fMul [.flt a, .flt b] = some k := guardFMul_iff_partial W a b k hc hexp
+
+theorem fbig_mul_guard_counterexample :
+    guardFMul ⟨2, 1, 2 ^ 62 + 2 ^ 42, 0, 'Z'⟩ ⟨2, 1, 2 ^ 62 + 2 ^ 42, 0, 'Z'⟩ = .ok () ∧
+    documented 64 .fMul [.flt ⟨2, 1, 2 ^ 62 + 2 ^ 42, 0, 'Z'⟩, .flt ⟨2, 1, 2 ^ 62 + 2 ^ 42, 0, 'Z'⟩]
+      = some .exponentOverflow := guardFMul_counterexample
+
+theorem fbig_sqr_guard_partial (W : Nat) (a : FArg) (k : Kind) (hc : a.canonical)
+    (hexp : expApprox (2 * a.exp) = .returns) :
+    guardFSqrCubic a = .error k ↔ documented W .fSqr [.flt a] = some k := guardFSqr_iff_partial W a k hc hexp
+
+theorem fbig_cubic_guard_partial (W : Nat) (a : FArg) (k : Kind) (hc : a.canonical)
+    (hexp : expApprox (3 * a.exp) = .returns) :
+    guardFSqrCubic a = .error k ↔ documented W .fCubic [.flt a] = some k := guardFCubic_iff_partial W a k hc hexp
+
+theorem fbig_rem_guard (W : Nat) (a b : FArg) (k : Kind)
+    (hc : (a.canonical ∧ b.canonical ∧ sameKind a b)) (hm : (a.moderate ∧ b.moderate)) :
+    guardFRem W a b = .error k ↔ documented W .fRem [.flt a, .flt b] = some k := guardFRem_iff W a b k hc hm
+
+theorem fbig_inv_guard (W : Nat) (a : FArg) (k : Kind) (hc : a.canonical) (hm : a.moderate) :
+    guardFInv W a = .error k ↔ documented W .fInv [.flt a] = some k := guardFInv_iff W a k hc hm
+
+/-- `exp` / `exp_m1` for `|x| ≤ 2^61` (beyond, the overflow test `s.try_into()` decides; not mirrored) -/
+theorem fbig_exp_guard_partial (W : Nat) (a : FArg) (k : Kind) (hc : a.canonical) (hm : a.moderate)
+    (h66 : a.magAtLeastPow2 66 = false) (h61 : a.magAtMostPow2 61 = true) :
+    (guardFExp a = .error k ↔ documented W .fExp [.flt a] = some k) ∧
+    (guardFExp a = .error k ↔ documented W .fExpM1 [.flt a] = some k) :=
+  ⟨guardFExp_iff_partial W a k hc hm h66 h61, guardFExpM1_iff_partial W a k hc hm h66 h61⟩
+
+theorem fbig_powi_guard_partial (W : Nat) (a : FArg) (e : Int) (k : Kind) (hc : a.canonical) (hm : a.moderate)
+    (hexp : a.signif.natAbs = 1 → expApprox (a.exp * e) = .returns) :
+    guardFPowi a e = .error k ↔ documented W .fPowi [.flt a, .int e] = some k :=
+  guardFPowi_iff_partial W a e k hc hm hexp
+
+/- FULL (false, `fbig_shl_guard_counterexample`): `exponent + rhs` is unchecked. -/
+theorem fbig_shl_guard_partial (W : Nat) (a : FArg) (n : Int) (k : Kind) (hc : a.canonical)
+    (hn : isizeMin ≤ n ∧ n ≤ isizeMax) (hexp : expExact (a.exp + n) = .returns) :
+    guardFShift a = .error k ↔ documented W .fShl [.flt a, .dec n] = some k := guardFShl_iff_partial W a n k hc hn hexp
+
+theorem fbig_shr_guard_partial (W : Nat) (a : FArg) (n : Int) (k : Kind) (hc : a.canonical)
+    (hn : isizeMin ≤ n ∧ n ≤ isizeMax) (hexp : expExact (a.exp - n) = .returns) :
+    guardFShift a = .error k ↔ documented W .fShr [.flt a, .dec n] = some k := guardFShr_iff_partial W a n k hc hn hexp
+
+theorem fbig_shl_guard_counterexample :
+    guardFShift ⟨2, 1, 30, 0, 'Z'⟩ = .ok () ∧
+    documented 64 .fShl [.flt ⟨2, 1, 30, 0, 'Z'⟩, .dec (2 ^ 63 - 1)] = some .exponentOverflow := guardFShl_counterexample
+
+theorem fbig_to_binary_guard (W : Nat) (a : FArg) (k : Kind) (hc : a.canonical) (he : a.exp.natAbs ≤ 2 ^ 20) :
+    guardFConvertBase a 2 = .error k ↔ documented W .fToBinary [.flt a] = some k := guardFToBinary_iff W a k hc he
+
+/- FULL (false, `fbig_to_decimal_guard_counterexample`): the target precision of a binary float with precision 1..3
+   is 0 (finding to_decimal_small_precision). -/
+theorem fbig_to_decimal_guard_partial (W : Nat) (a : FArg) (k : Kind) (hc : a.canonical) (he : a.exp.natAbs ≤ 2 ^ 20)
+    (hp : a.base = 2 → (a.prec = 0 ∨ 4 ≤ a.prec)) :
+    guardFConvertBase a 10 = .error k ↔ documented W .fToDecimal [.flt a] = some k :=
+  guardFToDecimal_iff_partial W a k hc he hp
+
+theorem fbig_to_decimal_guard_counterexample :
+    guardFConvertBase ⟨2, 1, 0, 1, 'Z'⟩ 10 = .error .unlimitedPrecision ∧
+    documented 64 .fToDecimal [.flt ⟨2, 1, 0, 1, 'Z'⟩] = none := guardFToDecimal_counterexample
+
+theorem fbig_from_repr_guard (W : Nat) (dbg : Int) (a : FArg) (k : Kind) (hd : dbg = 0 ∨ dbg = 1)
+    (hb : (a.base = 2 ∧ a.mode = 'Z') ∨ (a.base = 10 ∧ a.mode = 'H')) (hm : a.moderate) :
+    guardFFromRepr (dbg = 1) a = .error k ↔ documented W .fFromRepr [.dec dbg, .flt a] = some k :=
+  guardFFromRepr_iff W dbg a k hd hb hm
+
+theorem rbig_from_parts_signed_guard (W : Nat) (n d : Int) (c : Char) (k : Kind) :
+    guardQFromPartsSigned d = .error k ↔ documented W .qFromPartsSigned [.int n, .int d, .kind c] = some k :=
+  guardQFromPartsSigned_iff W n d c k
+
+theorem rbig_inv_guard (W : Nat) (n : Int) (d : Nat) (c : Char) (k : Kind) (hd : 0 < d) :
+    guardQInv n = .error k ↔ documented W .qInv [.int n, .int d, .kind c] = some k := guardQInv_iff W n d c k hd
+
+theorem rbig_div_family_guard (W : Nat) (n n2 : Int) (d d2 : Nat) (c : Char) (k : Kind) (hd : 0 < d) (hd2 : 0 < d2)
+    (op : Op) (hop : op ∈ [Op.qDiv, .qRem, .qDivEuclid]) :
+    guardQDiv n2 = .error k ↔ documented W op [.int n, .int d, .kind c, .int n2, .int d2] = some k :=
+  guardQDiv_iff W n n2 d d2 c k hd hd2 op hop
+
+theorem rbig_div_int_guard (W : Nat) (n i : Int) (d : Nat) (c : Char) (k : Kind) (hd : 0 < d) :
+    guardQDivInt i = .error k ↔ documented W .qDivInt [.int n, .int d, .kind c, .int i] = some k :=
+  guardQDivInt_iff W n i d c k hd
+
+theorem const_divisor_from_word_guard (W x : Nat) (k : Kind) (hx : x < 2 ^ W) :
+    guardCdFromPrim x = .error k ↔ documented W .cdFromWord [.int x] = some k := guardCdFromWord_iff W x k hx
+
+theorem const_divisor_from_dword_guard (W x : Nat) (k : Kind) (hx : x < 2 ^ (2 * W)) :
+    guardCdFromPrim x = .error k ↔ documented W .cdFromDword [.int x] = some k := guardCdFromDword_iff W x k hx
+
+theorem const_divisor_use_guard (W m : Nat) (x e : Int) (k : Kind) (he : 0 ≤ e) :
+    (guardCdNew W m = .error k ↔ documented W .cdDivRem [.int x, .int m] = some k) ∧
+    (guardCdNew W m = .error k ↔ documented W .mInv [.int m, .int x] = some k) ∧
+    (guardCdNew W m = .error k ↔ documented W .mPow [.int m, .int x, .int e] = some k) := guardCdUse_iff W m x e k he
+
+/-- two `ConstDivisor` instances: DivideByZero from a constructor, else DifferentRings — never a value -/
+theorem reduced_different_rings_guard (W : Nat) (f : String) (m1 m2 : Nat) (x y : Int) (k : Kind)
+    (hf : f ∈ ["add", "sub", "mul", "div", "eq"]) :
+    guardMDiff W m1 m2 = .error k ↔ documented W .mDiff [.fn f, .int m1, .int x, .int m2, .int y] = some k :=
+  guardMDiff_iff W f m1 m2 x y k hf
+
+theorem to_chunks_guard (W x kb : Nat) (k : Kind) :
+    guardChunkBits kb = .error k ↔ documented W .uToChunks [.int x, .dec kb] = some k := guardToChunks_iff W x kb k
+
+theorem ubig_in_radix_guard (W x r : Nat) (k : Kind) :
+    guardInRadix r = .error k ↔ documented W .uInRadix [.int x, .dec r] = some k := guardUInRadix_iff W x r k
+
+-- allocation requests (64-bit words): AllocTooMuch fires iff the documentation says so
+theorem ones_alloc_guard (n : Nat) (hband : ¬ (n % 64 = 0 ∧ n / 64 = maxCapacity 64)) :
+    guardRequest 64 (onesRequest 64 n) = .error .allocTooMuch ↔ documented 64 .uOnes [.dec n] = some .allocTooMuch :=
+  Dashu.Proofs.Panic.ones_alloc_guard n hband
+
+theorem set_bit_alloc_guard (x n : Nat) (hx : (bitLen x + 63) / 64 ≤ maxCapacity 64) :
+    guardRequest 64 (setBitRequest 64 x n) = .error .allocTooMuch ↔
+      documented 64 .uSetBit [.int x, .dec n] = some .allocTooMuch := Dashu.Proofs.Panic.set_bit_alloc_guard x n hx
+
+theorem shl_alloc_guard_partial (x n : Nat) (hx0 : x ≠ 0)
+    (hband : (bitLen x + n + 63) / 64 + 2 ≤ maxCapacity 64 ∨ (bitLen x + n + 63) / 64 > maxCapacity 64) :
+    guardRequest 64 (shlRequest 64 x n) = .error .allocTooMuch ↔
+      documented 64 .uShl [.int x, .dec n] = some .allocTooMuch := Dashu.Proofs.Panic.shl_alloc_guard x n hx0 hband
+
+theorem shl_alloc_band_counterexample :
+    guardRequest 64 (shlRequest 64 3 (2 ^ 64 - 100)) = .error .allocTooMuch ∧
+    documented 64 .uShl [.int 3, .dec (2 ^ 64 - 100)] = some .outOfMemory :=
+  Dashu.Proofs.Panic.shl_alloc_band_counterexample
+
+example : guardMDiff 64 7 7 = .error .differentRings := by decide
+example : guardRequest 64 (shlRequest 64 1 (2 ^ 64 - 1)) = .error .allocTooMuch := by decide
+example : expApprox ((5 : Int) + 7) = .returns := by decide
 
 -- non-vacuity of the float hypotheses: −∞ / 12345·2^-2 at precision 0 is a canonical, moderate pair and the
 -- guard fails with Infinite; 3/0 at precision 5 fails with DivideByZero
